@@ -21,11 +21,14 @@ typedef Opt::Workspace WS;
 
 static const std::vector<Problem<D>> &problems() {
   static std::vector<Problem<D>> ps;
-  if (ps.empty()) { ps.push_back(opt_problem<D>(S, 1, 41, 0.0)); ps.push_back(opt_problem<D>(S, 3, 42, 1.5)); ps.push_back(opt_problem<D>(S, 2, 43, -0.5)); ps.push_back(opt_problem<D>(S, 4, 44, 0.25)); }
+  if (ps.empty()) { ps.push_back(opt_problem<D>(S, 1, 41, 0.0)); ps.push_back(opt_problem<D>(S, 3, 42, 1.5)); ps.push_back(opt_problem<D>(S, 2, 43, -0.5)); ps.push_back(opt_problem<D>(S, 4, 44, 0.25));
+    // ps[4]: the durations and inner waypoints of ps[1], but other end points, boundary derivatives and start time: with flags 0x00 the decision
+    // vectors of ps[1] and ps[4] are interchangeable bit for bit, the splines they define are not (seeded change C09-m8)
+    { Problem<D> q = ps[1]; Problem<D> o = opt_problem<D>(S, 3, 45, 2.75); q.t0 = o.t0; q.bc = o.bc; q.P.row(0) = o.P.row(0); q.P.row(q.N) = o.P.row(o.N); ps.push_back(q); } }
   return ps;
 }
 static const unsigned MASKS[4] = {0x00, 0xff, 0x11, 0x22};
-struct Model { int prob = -1; unsigned mask = 0; int tm = 0, sm = 0; bool ws = false; bool alive = false; };  // tm/sm: 0 default, 1 user A, 2 user B
+struct Model { int prob = -1; unsigned mask = 0; int tm = 0, sm = 0; bool ws = false; bool alive = false; bool fresh = false; };   // fresh: the last operation on the built-in workspace was a query at the history's evaluation vector and nothing was reconfigured since  // tm/sm: 0 default, 1 user A, 2 user B
 struct UserMaps { VTimeMap ta{0.125}, tb{0.03125}; VMap<D> sa{1, 1.5, 0.25}, sb{0, 2.0, 0.5}; };
 
 static const VTimeMap &tm_of(const UserMaps &u, int r) { static VTimeMap d; return r == 0 ? d : r == 1 ? u.ta : u.tb; }
@@ -42,6 +45,16 @@ static std::string check_opt(const Opt &o, const Model &m, const UserMaps &u, co
   if (o.getDimension() != L.total) return fmt("%s: getDimension() = %d, layout model = %d", name, o.getDimension(), L.total);
   Opt fresh; if (m.tm) fresh.setTimeMap(&tm_of(u, m.tm)); if (m.sm) fresh.setSpatialMap(&sm_of(u, m.sm));
   fresh.setOptimizationFlags(flags_of(m.mask)); fresh.setEnergyWeights(0.25); fresh.setIntegralNumSteps(2); fresh.setInitState(p.T, p.P, p.t0, p.bc);
+  // before the check touches the built-in workspace: right after evaluate() / checkGradients() at the history's evaluation vector the exposed
+  // spline is the one that vector defines (a self-check must put the workspace back: seeded change C10-m8)
+  if (m.fresh) { Eigen::VectorXd xh(L.total), gf; for (int i = 0; i < L.total; ++i) xh(i) = 1.25 + i / 32.0; TimeCost tc2; RunCost<D> rc2 = RunCost<D>::mode(5); WS wf; (void)o.evaluate(xh, gf, tc2, rc2, &wf);
+    const Sp *os = o.getOptimalSpline(); if (!os || !mat_bits_equal(os->getTrajectory().getCoefficients(), wf.spline.getTrajectory().getCoefficients()) || os->getTrajectory().getBreakpoints() != wf.spline.getTrajectory().getBreakpoints())
+      return fmt("%s: after evaluate()/checkGradients() on the built-in workspace, getOptimalSpline() is not the spline defined by the queried decision vector", name); }
+  // FIRST query on the built-in workspace, at the very vector the history's own evaluate() operations use: a result memoised on x must not
+  // survive a reconfiguration (this has to precede every other built-in evaluation of the check, which would overwrite such a memo)
+  { Eigen::VectorXd xh(L.total), gh, gf; for (int i = 0; i < L.total; ++i) xh(i) = 1.25 + i / 32.0; TimeCost tc2; RunCost<D> rc2 = RunCost<D>::mode(5); WS wfh; double cb = o.evaluate(xh, gh, tc2, rc2), cf = o.evaluate(xh, gf, tc2, rc2, &wfh); dg.d(cb);
+    if (!bits_equal(cb, cf) || gh.size() != gf.size() || !bits_equal(gh.data(), gf.data(), gf.size()) || !o.getOptimalSpline() || !mat_bits_equal(o.getOptimalSpline()->getTrajectory().getCoefficients(), wfh.spline.getTrajectory().getCoefficients()) || o.getOptimalSpline()->getTrajectory().getBreakpoints() != wfh.spline.getTrajectory().getBreakpoints())
+      return fmt("%s: evaluate() at the history's evaluation vector with the built-in workspace (cost %.17g) differs from the same call with a fresh explicit workspace (cost %.17g), or the exposed spline is not the one of that vector", name, cb, cf); }
   Eigen::VectorXd x(L.total); for (int i = 0; i < L.total; ++i) x(i) = 1.0 + i / 64.0;
   TimeCost tc; WaypointCost wc; RunCost<D> rc = RunCost<D>::mode(9);
   WS w1, w2; Eigen::VectorXd g1, g2; double c1 = o.evaluate(x, g1, tc, wc, rc, &w1), c2 = fresh.evaluate(x, g2, tc, wc, rc, &w2);
@@ -63,23 +76,26 @@ static void canon_add_defaults(Canon &c, const Opt &o) { c.vec(o.default_time_ma
 struct World {
   UserMaps u; std::unique_ptr<Opt> X, Y; Model mx, my;
   World() : X(new Opt()) { mx.alive = true; X->setEnergyWeights(0.25); X->setIntegralNumSteps(2); }
-  int nops() const { return 18; }
-  bool enabled(int op) const { if (op >= 11 && op <= 13) return mx.prob >= 0; if (op == 16 || op == 17) return (bool)Y; return true; }
+  int nops() const { return 20; }
+  bool enabled(int op) const { if ((op >= 11 && op <= 13) || op == 19) return mx.prob >= 0; if (op == 16 || op == 17) return (bool)Y; return true; }
   std::string opname(int op) const { static const char *n[] = {"flags=0x00", "flags=0xff", "flags=0x11", "flags=0x22", "setSpatialMap(null)", "setSpatialMap(Proj A)", "setSpatialMap(Scale B)", "setInitState(dur,N=1)", "setInitState(dur,N=3)", "setInitState(tp,N=1)", "setInitState(tp,N=3)",
-      "getDimension()", "generateInitialGuess()", "evaluate()", "Y = Opt(X) copy-ctor", "Y = X (assign)", "swap X<->Y", "Y.setSpatialMap(Proj A)"}; return n[op]; }
+      "getDimension()", "generateInitialGuess()", "evaluate()", "Y = Opt(X) copy-ctor", "Y = X (assign)", "swap X<->Y", "Y.setSpatialMap(Proj A)", "setInitState(dur,N=3 with the same durations and inner waypoints, other end points / boundary state / start time)", "checkGradients() (built-in workspace)"}; return n[op]; }
   void apply(int op) {
-    if (op < 4) { X->setOptimizationFlags(flags_of(MASKS[op])); mx.mask = MASKS[op]; }
+    if (op <= 10 || op == 18) mx.fresh = false; if (op == 17) my.fresh = false;
+    if (op == 18) { const auto &p = problems()[4]; X->setInitState(p.T, p.P, p.t0, p.bc); mx.prob = 4; }
+    else if (op == 19) { Eigen::VectorXd x = X->generateInitialGuess(); for (int i = 0; i < x.size(); ++i) x(i) = 1.25 + i / 32.0; TimeCost tc; RunCost<D> rc = RunCost<D>::mode(5); (void)X->checkGradients(x, tc, rc); mx.ws = true; mx.fresh = true; }
+    else if (op < 4) { X->setOptimizationFlags(flags_of(MASKS[op])); mx.mask = MASKS[op]; }
     else if (op < 7) { int r = op - 4; X->setSpatialMap(r == 0 ? nullptr : &sm_of(u, r)); mx.sm = r; }
     else if (op < 11) { int pi = (op - 7) % 2; const auto &p = problems()[pi]; if (op < 9) X->setInitState(p.T, p.P, p.t0, p.bc); else X->setInitState(p.timepoints(), p.P, p.bc); mx.prob = pi; }
     else if (op == 11) (void)X->getDimension();
     else if (op == 12) (void)X->generateInitialGuess();
-    else if (op == 13) { Eigen::VectorXd x = X->generateInitialGuess(), g; for (int i = 0; i < x.size(); ++i) x(i) = 1.25 + i / 32.0; TimeCost tc; RunCost<D> rc = RunCost<D>::mode(5); (void)X->evaluate(x, g, tc, rc); mx.ws = true; }   // NOT the reference: every block of x differs from the stored problem
+    else if (op == 13) { Eigen::VectorXd x = X->generateInitialGuess(), g; for (int i = 0; i < x.size(); ++i) x(i) = 1.25 + i / 32.0; TimeCost tc; RunCost<D> rc = RunCost<D>::mode(5); (void)X->evaluate(x, g, tc, rc); mx.ws = true; mx.fresh = true; }   // NOT the reference: every block of x differs from the stored problem
     else if (op == 14) { Y.reset(new Opt(*X)); my = mx; }
     else if (op == 15) { if (!Y) Y.reset(new Opt()); *Y = *X; my = mx; }
     else if (op == 16) { std::swap(X, Y); std::swap(mx, my); }
     else if (op == 17) { Y->setSpatialMap(&u.sa); my.sm = 1; }
   }
-  std::string canon() const { Canon c; canon_add_opt(c, *X, false); canon_add_defaults(c, *X); c.i(mx.prob); c.i(mx.sm); c.i(Y ? 1 : 0); if (Y) { canon_add_opt(c, *Y, false); canon_add_defaults(c, *Y); c.i(my.prob); c.i(my.sm); } return c.s; }
+  std::string canon() const { Canon c; canon_add_opt(c, *X, false); canon_add_defaults(c, *X); c.i(mx.prob); c.i(mx.sm); c.i(mx.fresh); c.i(Y ? 1 : 0); if (Y) { canon_add_opt(c, *Y, false); canon_add_defaults(c, *Y); c.i(my.prob); c.i(my.sm); c.i(my.fresh); } return c.s; }
   std::string check(std::string &digest) { Canon dg; std::string m = check_opt(*X, mx, u, "X", dg); if (m.empty() && Y) m = check_opt(*Y, my, u, "Y", dg); digest = dg.s; return m; }
 };
 static const char *TAG = "optimizer reconfiguration";
